@@ -92,7 +92,13 @@ def run_tie(ch):
         if (res["err"] == "nil") and not ok:
             ch.violation(desc, dict(detail, what="success reported although no valid response can have arrived in this scenario"))
             continue
-        if res.get("jitter_ms", 0) > 25:
+        for _ in range(3):
+            # a late timer beside the call: measure again, on its own, before giving the comparison up
+            if res.get("jitter_ms", 0) <= 25 or res.get("setup"):
+                break
+            res = json.loads(core.run_lines(core.HARNESS, ["c13 " + json.dumps(rq, separators=(",", ":"))], 120)[0])
+            detail["result"] = res
+        if res.get("jitter_ms", 0) > 25 or res.get("setup"):
             skipped += 1
             continue
         diffs = []
@@ -184,7 +190,26 @@ def run(ch, build):
 
 
 def replay(ch, build, path):
-    r = json.load(open(path)); rq = r["detail"]["request"]
+    r = json.load(open(path))
+    if "request" not in r.get("detail", {}):
+        print("replay names what no longer checks: %s" % json.dumps(r.get("detail"))[:600])
+        print("VIOLATION property=C13 replay=%s no-failing-input-found" % path)
+        return 1
+    rq = r["detail"]["request"]
+    if r.get("descriptor", {}).get("kind") == "c13-tie":
+        # the scenario of the timing-model tie again: the model's answer and the library's
+        T, D, cases = tie_cases()
+        mine = [c for c in cases if c[0] == rq]
+        if mine:
+            model, _ = model_eval(mine, T, D)
+            res = json.loads(core.run_lines(core.HARNESS, ["c13 " + json.dumps(rq, separators=(",", ":"))], 120)[0])
+            print("model (end ms, ok, attempts):", model and model[0]); print("library:", json.dumps(res))
+            if res["hang"] or res["elapsed_ms"] > rq["deadline_ms"] + ALLOW_MS:
+                print("VIOLATION property=C13 replay=%s" % path); return 1
+            end, ok, attempts = model[0] if model else (0, False, -1)
+            if res["datagrams"] != attempts or (res["err"] == "nil") != ok or not (end - 15 <= res["elapsed_ms"] <= end + ALLOW_MS):
+                print("VIOLATION property=C13 replay=%s no-failing-input-found" % path); return 1
+            return 0
     o = core.run_lines(core.HARNESS, ["c13 " + json.dumps(rq, separators=(",", ":"))], 120)[0]
     print(o)
     res = json.loads(o)
